@@ -51,7 +51,8 @@ static void addl(int kind, int src, int u, int arg, const char *fmt, ...)
 	va_list ap; va_start(ap, fmt); vsnprintf(l->name, sizeof l->name, fmt, ap); va_end(ap);
 }
 
-#define TUNIP(slot) (0x0A000002u + (unsigned)(slot))      /* server 10.0.0.1, slots .2 .3 .. */
+static uint32_t tun_of_slot[16], srv_tun_ip = 0x0A000001u;    /* read from the server's table after start-up (host order) */
+#define TUNIP(slot) (tun_of_slot[(slot) & 15])
 
 static void mk_alphabet(void)
 {
@@ -97,7 +98,7 @@ static void mk_alphabet(void)
 		addl(L_DATA, SRC_C6, u, -1, "DATA(C6,u%d->tun)", u);
 		addl(L_LOGIN, SRC_C6, u, HK_CUR, "L(C6,u%d,cur)", u);
 	}
-	for (int u = 0; u < 2; u++) addl(L_TUN, -1, u, (int)TUNIP(u), "TUN(->slot%d)", u);
+	for (int u = 0; u < 2; u++) addl(L_TUN, -1, u, 0, "TUN(->slot%d)", u);
 	if (is04) {
 		addl(L_TUN, -1, -1, 0x0A000001, "TUN(->server)");
 		addl(L_TUN, -1, -1, 0x0A000006, "TUN(->unassigned)");
@@ -279,7 +280,8 @@ static int apply(int li)
 	case L_Z: { char s[] = "zabcAbC09"; plen = tm_query(pkt, sizeof pkt, id, QT, s, (int)strlen(s), DOM, 0); break; }
 	case L_TUN: {
 		uint8_t ip[200];
-		int n = tm_ippkt(ip, 40, 0xC0A80101u, (uint32_t)L->arg, 200 + li);
+		uint32_t dst = L->u >= 0 ? TUNIP(L->u) : (uint32_t)L->arg == 0x0A000001u ? srv_tun_ip : (uint32_t)L->arg;
+		int n = tm_ippkt(ip, 40, 0xC0A80101u, dst, 200 + li);
 		adv_tun_in(ip, n);
 		break;
 	}
@@ -498,10 +500,10 @@ static void key(uint64_t k[2])
 static const char *lname(int l) { return LT[l].name; }
 
 /* ---------------------------------------------------------------- start states */
-#define NSTART 6
+#define NSTART 7
 static const char *START_DESC[2][NSTART] = {
-	{ "fresh server, source check on", "fresh server, source check off (-c)", "A logged in on slot 0, source check on", "A and B logged in, source check off (-c)", "A logged in on slot 0, lazy mode with a ping held by the server, source check on", "as before, but A talks from an IPv6 address that shares its first 32 bits with the third party C6" },
-	{ "fresh server", "A on slot 0 and B on slot 1 logged in", "A and B logged in, then A silent for 55 s while B pinged", "A logged in and switched to raw mode, B logged in", "A and B logged in, A in lazy mode with a ping held by the server", "as before, but A talks from an IPv6 address that shares its first 32 bits with the third party C6" } };
+	{ "fresh server, source check on", "fresh server, source check off (-c)", "A logged in on slot 0, source check on", "A and B logged in, source check off (-c)", "A logged in on slot 0, lazy mode with a ping held by the server, source check on", "as before, but A talks from an IPv6 address that shares its first 32 bits with the third party C6", "A logged in (as start state 2) with the server's tunnel address in the middle of the pool (10.0.0.2: sessions get .1 and .3)" },
+	{ "fresh server", "A on slot 0 and B on slot 1 logged in", "A and B logged in, then A silent for 55 s while B pinged", "A logged in and switched to raw mode, B logged in", "A and B logged in, A in lazy mode with a ping held by the server", "as before, but A talks from an IPv6 address that shares its first 32 bits with the third party C6", "A and B logged in, the server's tunnel address in the middle of the pool (10.0.0.2: sessions get .1 and .3)" } };
 
 static int find_letter(int kind, int src, int u, int arg)
 {
@@ -524,18 +526,21 @@ static void boot(int start)
 	W.hooks.snap_regions = snap_regions; W.hooks.snap_restored = snap_restored;
 	memset(&M, 0, sizeof M);
 	M.check_ip = c.check_ip;
+	if (start == 6) c.my_ip = "10.0.0.2";
 	adv_boot(&c, 1, 0);
+	srv_tun_ip = start == 6 ? 0x0A000002u : 0x0A000001u;
+	for (int i = 0; i < s_w_created_users() && i < 16; i++) tun_of_slot[i] = ntohl(s_w_users()[i].tun_ip);
 	if (!pristine) pristine = malloc(sizeof *pristine * s_w_created_users());
 	memcpy(pristine, s_w_users(), sizeof *pristine * s_w_created_users());
 	if (is03) {
 		if (start >= 2) { pre(L_V, SRC_A, -1, 0); pre(L_LOGIN, SRC_A, 0, HK_CUR); }
 		if (start == 3) { pre(L_V, SRC_B, -1, 0); pre(L_LOGIN, SRC_B, 1, HK_CUR); }
-		if (start >= 4) { pre(L_O, SRC_A, 0, 'l'); pre(L_P, SRC_A, 0, 0); }
+		if (start == 4 || start == 5) { pre(L_O, SRC_A, 0, 'l'); pre(L_P, SRC_A, 0, 0); }
 	} else {
 		if (start >= 1) { pre(L_V, SRC_A, -1, 0); pre(L_LOGIN, SRC_A, 0, HK_CUR); pre(L_V, SRC_B, -1, 0); pre(L_LOGIN, SRC_B, 1, HK_CUR); }
 		if (start == 2) { pre(L_TIME, -1, -1, 55); pre(L_P, SRC_B, 1, 0); }
 		if (start == 3) { pre(L_RAWLOGIN, SRC_A, 0, RK_PLUS1); }
-		if (start >= 4) { pre(L_O, SRC_A, 0, 'l'); pre(L_P, SRC_A, 0, 0); }
+		if (start == 4 || start == 5) { pre(L_O, SRC_A, 0, 'l'); pre(L_P, SRC_A, 0, 0); }
 	}
 }
 
